@@ -14,10 +14,21 @@
   `mof … = .ok sent` means the real iteration finished without an exception and yielded `sent`.
 -/
 import DulwichModel.Lemmas.Missing
-import DulwichModel.Model.Negotiate
+import DulwichModel.Lemmas.Negotiate
 
 namespace Dulwich.Props.C05
 open Dulwich Dulwich.Graph Dulwich.Missing
+
+/-! ## 0. The executable closure (`closure`, what the driver computes) is exactly `Reach`. -/
+
+theorem closure_eq_reach (s : Store) (fuel : Nat) (roots l : List Id)
+    (h : closure s fuel roots = some l) : ∀ x, x ∈ l ↔ Reach s roots x := by
+  intro x
+  constructor
+  · exact closureAux_sound s roots fuel roots [] l h (fun y hy => .root hy) (by simp) x
+  · intro hx
+    have hc := closureAux_complete s fuel roots [] l h (by simp)
+    exact Reach.induct (P := fun x => x ∈ l) hc.2.1 (fun y o c hy hs hcm => hc.2.2 y hy o hs c hcm) hx
 
 /-! ## 1. Soundness: nothing outside the closure of the wants is selected, apart from tags followed
 automatically.  No hypothesis: any store (closed or not, well-typed or not), any haves, any
@@ -123,7 +134,9 @@ theorem transfer_complete (s r : Store) (tagged : List (Id × Id))
         | none => simp [hsx] at hsome
         | some o' => simp [hA x o o' hr hsx]
     · simp only [union, hR x h1]
-      cases hsx : s x <;> simp [restrict]
+      cases hsx : s x with
+      | none => simp [hsx] at hsome
+      | some o => simp
   refine ⟨key, ?_⟩
   -- reachability in the receiver's new store stays inside the sender's closure of the wants
   have sub : ∀ x, Reach (union r (restrict s sent)) wants x → Reach s wants x := by
@@ -139,10 +152,10 @@ theorem transfer_complete (s r : Store) (tagged : List (Id × Id))
 entries (same hypotheses as completeness). -/
 
 theorem mof_order_independent (s : Store) (tagged : List (Id × Id))
-    (pick₁ pick₂ : Nat → List (Id × Bool) → Nat) (fuel₁ fuel₂ : Nat) (haves wants sent₁ sent₂ : List Id)
+    (pick₁ pick₂ : Nat → List (Id × Bool) → Nat) (fuel : Nat) (haves wants sent₁ sent₂ : List Id)
     (hwt : WellTyped s) (htg : TaggedDirect s tagged)
-    (h₁ : mof s tagged pick₁ fuel₁ haves wants [] = .ok sent₁)
-    (h₂ : mof s tagged pick₂ fuel₁ haves wants [] = .ok sent₂) (_ : fuel₂ = fuel₁) :
+    (h₁ : mof s tagged pick₁ fuel haves wants [] = .ok sent₁)
+    (h₂ : mof s tagged pick₂ fuel haves wants [] = .ok sent₂) :
     ∀ x, x ∈ sent₁ ↔ x ∈ sent₂ := by
   unfold mof at h₁ h₂
   split at h₁
@@ -213,8 +226,8 @@ open Dulwich.Negotiate in
 /-- A pack is sent only after `done`, unless `no-done` was negotiated and something is common. -/
 theorem negotiation_pack_needs_done (mode : AckMode) (stateless : Bool) (has : Id → Bool)
     (sat : List Id → Bool) (lines : List CLine) (r : NegoResult)
-    (h : negotiate mode stateless has sat lines = .ok r) (noDone : Bool)
-    (hp : sendsPack mode r noDone = true) : r.doneReceived = true ∨ (noDone = true ∧ r.haves ≠ []) :=
+    (_h : negotiate mode stateless has sat lines = .ok r) (noDone : Bool)
+    (hp : sendsPack mode r noDone = true) : r.doneReceived = true ∨ (noDone = true ∧ r.common ≠ []) :=
   sendsPack_needs_done mode r noDone hp
 
 /-! ## 7. Non-vacuity: a concrete history (root commit 2, child commit 5 sharing a subtree and
@@ -236,7 +249,7 @@ theorem demo_taggedDirect : TaggedDirect (ofList demo) [(5, 6)] := by
     have : x = 5 := by simpa using heq
     subst this
     exact .inl (by decide)
-  · simp [List.lookup] at h
+  · simp at h
 
 /-- Receiver has the root commit; wants the outer tag: newest-first and oldest-first pop orders
 yield the same set; the gitlink target 9 is not selected; the root tree 1 of the boundary commit is
@@ -246,7 +259,7 @@ example : mof (ofList demo) [] (fun _ _ => 0) 40 [2] [7] [] = .ok [6, 7, 1, 3, 4
 example : mof (ofList demo) [] (fun _ t => t.length - 1) 40 [2] [7] [] = .ok [3, 1, 4, 5, 7, 6] := by
   decide
 /-- With `include-tag` the tag of the sent commit travels although only the commit was wanted. -/
-example : mof (ofList demo) [(5, 6)] (fun _ _ => 0) 40 [2] [5] [] = .ok [6, 1, 3, 4, 5] := by decide
+example : mof (ofList demo) [(5, 6)] (fun _ _ => 0) 40 [2] [5] [] = .ok [1, 3, 4, 6, 5] := by decide
 
 example : ∀ x, Reach (ofList demo) [7] x → x ∈ [6, 7, 1, 3, 4, 5] ∨ Reach (ofList demo) (present (ofList demo) [2]) x :=
   mof_complete (ofList demo) [] (fun _ _ => 0) 40 [2] [7] _ demo_wellTyped
@@ -259,8 +272,8 @@ example : ∀ x, Reach (ofList demo) [7] x → x ∈ [6, 7, 1, 3, 4, 5] ∨ Reac
 tag 6 it points to is not — the yielded set is not closed.  (The wants' own closure is still
 complete; this is why `TaggedDirect` is a hypothesis of the exact characterisation only.) -/
 theorem autotag_chain_counterexample :
-    mof (ofList demo) [(5, 7)] (fun _ _ => 0) 40 [2] [5] [] = .ok [7, 1, 3, 4, 5] ∧
-    ofList demo 7 = some (.tag 6) ∧ 6 ∉ [7, 1, 3, 4, 5] := by decide
+    mof (ofList demo) [(5, 7)] (fun _ _ => 0) 40 [2] [5] [] = .ok [1, 3, 4, 7, 5] ∧
+    ofList demo 7 = some (.tag 6) ∧ 6 ∉ [1, 3, 4, 7, 5] := by decide
 
 /-- A have whose closure the receiver does not hold: the receiver claims commit 2 but lacks its
 tree 1's blob 0; the sender (rightly, by the protocol) does not send it and the receiver stays
@@ -280,15 +293,13 @@ theorem have_without_closure_counterexample :
 /-- Gitlinks are not edges: the submodule commit 9 named by tree 4 is not reachable. -/
 theorem gitlink_not_followed : ¬ Reach (ofList demo) [7] 9 := by
   intro h
-  have : ∀ x, Reach (ofList demo) [7] x → x ≤ 7 := by
+  have hdec : ∀ y, y < 8 → ∀ c ∈ ((ofList demo y).map children).getD [], c < 8 := by decide
+  have : ∀ x, Reach (ofList demo) [7] x → x < 8 := by
     intro x hx
-    refine Reach.induct (P := fun x => x ≤ 7) (by simp) ?_ hx
+    refine Reach.induct (P := fun x => x < 8) (by simp) ?_ hx
     intro y o c hy hs hc
-    have hy' : y = 0 ∨ y = 1 ∨ y = 2 ∨ y = 3 ∨ y = 4 ∨ y = 5 ∨ y = 6 ∨ y = 7 := by omega
-    rcases hy' with rfl | rfl | rfl | rfl | rfl | rfl | rfl | rfl <;>
-      (simp [ofList, demo, List.lookup] at hs; subst hs; simp [children, treeKids] at hc; omega)
-  have := this 9 h
-  omega
+    exact hdec y hy c (by simpa [hs] using hc)
+  exact absurd (this 9 h) (by decide)
 
 /-- The mode classification the walk uses agrees with `S_ISGITLINK` / `S_ISDIR` on git's modes. -/
 theorem kind_of_git_modes :
